@@ -20,7 +20,7 @@ CHECKS = {
         technique="deterministic simulation: two endpoints over a seeded hostile datagram network (loss, duplication, reordering, corruption, truncation, extension, key/nonce desynchronisation, bit-flip storms) with a ledger oracle",
         category="exploration",
         text="Seeded search over network fault schedules: sender and receiver sessions of every AEAD family (one-shot, incremental incl. multi-packet reinit with NULL key/nonce, masked, SIV, ISAP x three parameter sets; 14 backend x share configurations so that every masked backend family meets data shares 1..4) exchange packets through a simulated packet pool that drops, duplicates, reorders, corrupts (single/multi bit in ciphertext, tag, AD), truncates to any length, extends, and desynchronises keys and nonces; every delivery is judged against the ledger of what the sender really encrypted (accept iff identical tuple; plaintext and length on accept; zeroed buffer on one-shot reject). Bit-flip storms re-deliver one packet once per single-bit flip of ciphertext||tag, AD, nonce or key through fresh receiver objects (48 sampled bits in quick, every bit in thorough); for the C++ classes the storm receivers are keyed through the key constructor or set_key and judged by the same ledger. Sampling, not proof.",
-        note="Trusted: ledger model in the harness; 2^-128 accidental forgeries ignored; what a C++ session object accepts after a nonce history is judged under C14 (its nonce is private), its keying paths also under C17.",
+        note="Thorough adds one packet over 2^32+11 bytes of associated data per one-shot/SIV/ISAP/masked family (size_t lengths). Trusted: ledger model in the harness; 2^-128 accidental forgeries ignored; what a C++ session object accepts after a nonce history is judged under C14 (its nonce is private), its keying paths also under C17.",
         design="§3 W1, §4 C02"),
     "C14": dict(
         technique="deterministic simulation: stream-mode sessions over the simulated network with a 128-bit big-endian counter model; packet i must equal the library's one-shot under N+i",
@@ -38,7 +38,7 @@ CHECKS = {
         technique="deterministic simulation: real threads released one at a time by a seeded scheduler that may pre-empt at every instrumented load/store/function entry of the library; own byte-precise race detector, static-storage write detector and per-thread result comparison",
         category="exploration",
         text="2..8 simulated caller threads run seeded plans over 22 operation kinds (hash, xof incl. custom/fixed variants, the AEADs, incremental AEAD, SIV, ISAP, masked AEADs, PRF/HMAC/KMAC/HKDF/KDF/PBKDF2 in both permutation families, ascon_random, PRNG objects, and every C++ class through its encrypt/decrypt pair; a third of the packets are corrupted before decryption so that failure paths run too) on private objects, on a shared pre-computed ISAP key per variant, shared masked keys and shared constant inputs. The library's C sources are built with clang load/store/function-entry callbacks, so every memory access of library code is both seen by the harness's race detector (any two accesses of different threads to the same byte with at least one write, since the library has no synchronisation) and a potential pre-emption point decided by the seeded scheduler (Bernoulli rates 1/10..1/5000 or PCT-style change points). Three invariants: no race; no store to the executable's writable static storage (hidden global state); every thread's results equal its plan run alone. Passes: c64 (no blind spots), asm (permutation modelled at the call boundary), c32 with 3 shares and direct-xor with 4 shares in quick; all five backends in thorough. Same seed => same switch sequence (checked under contention).",
-        note="Trusted: clang's sanitizer-coverage instrumentation to report every load/store of the C sources; the baton scheduler; races are judged on a clang -O1 build, not the shipped -O3 one (a race is a source-level property). Allocation inside the library is observed through malloc/free hooks.",
+        note="Trusted: clang's sanitizer-coverage instrumentation to report every load/store of the C sources; the baton scheduler; races are judged on a clang -O1 build, not the shipped -O3 one (a race is a source-level property). Allocation inside the library is observed through malloc/free hooks. Assembly objects cannot be instrumented: races inside them are out of reach, but any writable static storage they bring along is compared before and after every run.",
         design="§3 W4, §4 C16"),
     "C17": dict(
         technique="deterministic simulation: seeded life-cycle histories of the C++ cipher/hash/xof objects (every construction and keying path, every overload) mirrored call by call through the C API; the harness translation unit is the compile obligation",
@@ -92,7 +92,7 @@ CHECKS = {
         technique="deterministic simulation: seeded interleaved object histories (chunking, copy, re-init, free, dirty-memory reuse) checked against the library's own single-call form",
         category="exploration",
         text="Seeded search over histories: up to 6 live incremental objects (hash, xof, prf, hmac, kmac, kdf, hkdf, incremental AEAD; both permutation families) are driven through randomly chunked absorb/squeeze/encrypt/decrypt calls (declared lengths up to 2^29 for the length-prefixed modes, HKDF up to and across its 8160-byte limit), copies, re-inits, several packets per incremental AEAD session, frees and re-use of dirty memory, interleaved by a seeded scheduler; after every output the transcript must equal the library's one-shot (or fresh single-call) result. Sampling, not proof; the right level because the quantifier is over unbounded call histories.",
-        note="Trusted: the library's one-shot functions as the reference (what they compute is C03/C04/C05, not claimed); gcc; the harness' transcript model. Absorb-after-squeeze is not generated. Calls longer than a few KiB exist in the thorough tier only (batch `huge`: one absorb/update call of 2^32+k bytes behind a partly filled block, nine families).",
+        note="Trusted: the library's one-shot functions as the reference (what they compute is C03/C04/C05, not claimed); gcc; the harness' transcript model. XOF/XOFA sessions also go back from squeezing to absorbing (canonical form: one absorb and one squeeze call per round). Calls longer than a few KiB exist in the thorough tier only (batch `huge`: one absorb/update call of 2^32+k bytes behind a partly filled block, nine families).",
         design="§3 W2, §4 C07"),
 }
 
